@@ -21,12 +21,24 @@ from typing import Any, Dict, List, Optional, Tuple
 from harness.lib.core import Rng
 from harness.rigs import software as base
 
-MODELLED = ("DNSServer", "DNSClient", "NTPServer", "NTPClient")
+MODELLED = ("DNSServer", "DNSClient", "NTPServer", "NTPClient", "WebServer", "WebBrowser")
 IPS = {"A": "192.168.1.2", "B": "192.168.1.3"}
 NAMES = ["x.test", "y.test", "z.test"]
 ADDRS = [167772169, 167772170, 3232235800]          # 10.0.0.9, 10.0.0.10, 192.168.1.24
 BOGUS = "192.168.1.77"                               # nobody has this address
 PORTS = [53, 123, 80, 22]
+# the URL pool: id -> (text, host spec of the model line, explicit port, path kind)
+URLS = [
+    ("http://x.test/", "name:x.test", None, "root"),
+    ("http://x.test/users/", "name:x.test", None, "users"),
+    ("http://y.test/other/page", "name:y.test", None, "other"),
+    (f"http://{IPS['B']}/", f"addr:{int(__import__('ipaddress').IPv4Address(IPS['B']))}:{IPS['B']}", None, "root"),
+    (f"http://{IPS['A']}/users", f"addr:{int(__import__('ipaddress').IPv4Address(IPS['A']))}:{IPS['A']}", None, "users"),
+    ("http://x.test:8080/users", "name:x.test", 8080, "users"),
+    ("http://z.test/", "name:z.test", None, "root"),
+    ("http://x.test/users/list", "name:x.test", None, "users"),
+]
+URL_ID = {u[0]: i for i, u in enumerate(URLS)}
 SVC_TYPES = ["dns-server", "ntp-server", "dns-client", "ntp-client", "ftp-server", "web-server"]
 LIFE_NAMES = ["dns-client", "dns-server", "ntp-client", "ntp-server"]
 LIFE_REQS = ["stop", "start", "pause", "resume", "restart", "disable", "enable"]
@@ -85,7 +97,7 @@ class RecvImpl(base.Impl):
         def recorder(*a, _o=obj, **k):
             payload = k.get("payload", a[0] if a else None)
             kind = type(payload).__name__
-            if kind not in ("DNSPacket", "NTPPacket", "dict", "PortScanPayload"):
+            if kind not in ("DNSPacket", "NTPPacket", "dict", "PortScanPayload", "HttpRequestPacket", "HttpResponsePacket"):
                 return real(_o, *a, **k)          # ARP / ICMP housekeeping of the real network: not part of the comparison
             can = bool(_o._can_perform_action())
             idx = len(world.log)
@@ -104,6 +116,7 @@ class RecvImpl(base.Impl):
                                           f"ret={ret!r} data {before} -> {data_of(_o)} sends {world.sends[me.side] - sends0}", cls_name))
             return ret
         object.__setattr__(obj, "receive", recorder)
+        _stub_db_client(self.node, obj)
         if hasattr(obj, "restore_backup"):
             object.__setattr__(obj, "restore_backup", lambda *a, **k: False)
             object.__setattr__(obj, "backup_database", lambda *a, **k: False)
@@ -149,10 +162,44 @@ def data_of(o) -> Optional[str]:
         return f"dnsclient {ip_int(o.dns_server) if o.dns_server else '-'} {kv(o.dns_cache)}"
     if n == "NTPServer":
         return "ntpserver"
+    if n == "WebServer":
+        codes = ",".join("n" if c is None else str(int(c)) for c in o.response_codes_this_timestep) or "-"
+        conn = getattr(o, "db_connection", None)
+        return f"webserver {codes} {'-' if conn is None else (1 if conn.ok else 0)}"
+    if n == "WebBrowser":
+        lr = o.latest_response
+        latest = "-" if lr is None else ("n" if lr.status_code is None else str(int(lr.status_code)))
+        hist = ",".join(f"{URL_ID[h.url]}=" + ("U" if h.status.name != "LOADED" else ("n" if h.response_code is None else str(int(h.response_code))))
+                        for h in o.history) or "-"
+        tgt = o.config.target_url
+        return f"webbrowser {latest} {hist} {'-' if tgt is None else URL_ID[tgt]}"
     if n == "NTPClient":
         t = dt_to_nat(o.time)
         return f"ntpclient {ip_int(o.config.ntp_server_ip) if o.config.ntp_server_ip else '-'} {'-' if t is None else t}"
     return None
+
+
+_DB_OFFER: Dict[int, Optional[bool]] = {}   # id(node) -> what its database client hands out (None: no connection)
+
+
+class FakeDbConnection:
+    """what `DatabaseClient.get_new_connection()` hands to the web server; the database side is C17's subject and enters the
+    payload model as a verdict: do the queries of this connection succeed"""
+
+    def __init__(self, ok: bool):
+        self.ok = ok
+
+    def query(self, sql: str) -> bool:
+        return self.ok
+
+
+def _stub_db_client(node, obj):
+    """a database client installed on the node hands out connections according to the node-level offer set by the rig"""
+    if type(obj).__name__ == "DatabaseClient":
+        def offer(*a, _n=node, **k):
+            o = _DB_OFFER.get(id(_n))
+            return None if o is None else FakeDbConnection(bool(o))
+        object.__setattr__(obj, "get_new_connection", offer)
 
 
 class WorldImpl:
@@ -288,6 +335,31 @@ class WorldImpl:
             return [(self.answer("ok"), f"ntpreq {side} {im.uid(o)}")]
         if k == "ports":
             return [(im.ports_line(), f"{side} ports")]
+        if k == "dboffer":
+            _DB_OFFER[id(im.node)] = op["offer"]
+            return [("ok", f"{side} dboffer {'-' if op['offer'] is None else (1 if op['offer'] else 0)}")]
+        if k == "target":
+            o = self.installed(side, "web-browser")
+            if o is None:
+                return []
+            o.config.target_url = None if op["url"] is None else URLS[op["url"]][0]
+            return [("ok", f"{side} cfgdata {im.uid(o)} {data_of(o)}")]
+        if k == "browse":
+            o = self.installed(side, "web-browser")
+            if o is None:
+                return []
+            uid = op["url"] if op["url"] is not None else (URL_ID[o.config.target_url] if o.config.target_url else None)
+            if uid is None:
+                line = f"browse {side} {im.uid(o)} -"
+            else:
+                text, host, port, path = URLS[uid]
+                line = f"browse {side} {im.uid(o)} {uid} {host} {'-' if port is None else port} {path}"
+            try:
+                r = o.get_webpage(URLS[op["url"]][0]) if op["url"] is not None else o.get_webpage()
+            except AttributeError:
+                self.log.clear()
+                return [("raised", line)]   # no dns-client on the node: `dns_client.check_domain_exists` on None (as the code is)
+            return [(self.answer(f"ret {1 if r else 0}"), line)]
         if k == "inject":
             frame = self._frame(side, op["hdr"], op["port"], op["payload"])
             ignored = []
@@ -328,6 +400,13 @@ class WorldImpl:
             elif parts[2] != "-":
                 rep = DNSReply(domain_name_ip_address=IPv4Address(int(parts[2])))
             return DNSPacket(dns_request=DNSRequest(domain_name_request=parts[1]), dns_reply=rep)
+        if parts[0] == "http":
+            from primaite.simulator.network.protocols.http import HttpRequestMethod, HttpRequestPacket
+            meth = {"get": HttpRequestMethod.GET, "post": HttpRequestMethod.POST, "other": HttpRequestMethod.DELETE}[parts[1]]
+            return HttpRequestPacket(request_method=meth, request_url=URLS[int(parts[3])][0])
+        if parts[0] == "resp":
+            from primaite.simulator.network.protocols.http import HttpResponsePacket, HttpStatusCode
+            return HttpResponsePacket(status_code=HttpStatusCode(int(parts[1])))
         if parts[0] == "ntp":
             from primaite.simulator.network.protocols.ntp import NTPPacket, NTPReply
             if parts[1] == "-":
@@ -372,7 +451,9 @@ def _payload_spec(rng: Rng) -> str:
 
 
 def gen_world_case(rng: Rng, max_ops: int = 30, focus: Optional[str] = None) -> dict:
-    focus = focus or rng.choice(["dns", "ntp", "shared-port", "stopped-owner", "mixed", "mixed"])
+    focus = focus or rng.choice(["dns", "ntp", "shared-port", "stopped-owner", "mixed", "mixed", "web", "web"])
+    if focus == "web":
+        return gen_web_case(rng, max_ops)
     ops: List[dict] = []
     registered: List[str] = []
     sides = ["A", "B"]
@@ -463,6 +544,61 @@ def gen_world_case(rng: Rng, max_ops: int = 30, focus: Optional[str] = None) -> 
     return {"ops": ops[:max(n, 1)], "focus": focus}
 
 
+def gen_web_case(rng: Rng, max_ops: int = 30) -> dict:
+    """browser on A, DNS server + web server (+ database client with a scripted verdict) on B; fetches of every URL kind, with
+    lifecycle requests, power events, injected HTTP traffic, (un)installs and DNS / target / database changes in between"""
+    ipA, ipB = ip_int(IPS["A"]), ip_int(IPS["B"])
+    ops: List[dict] = [_install(rng, "B", "dns-server", []), _install(rng, "B", "web-server", [rng.choice([8080, 8080, 53])] if rng.chance(1, 3) else []),
+                       {"op": "cfg", "side": "A", "which": "dns", "target": "peer"},
+                       {"op": "register", "side": "B", "name": "x.test", "ip": ipB}]
+    if rng.chance(2, 3):
+        ops.append({"op": "register", "side": "B", "name": "y.test", "ip": rng.choice([ipB, ipB, ipA, ADDRS[0]])})
+    if rng.chance(2, 3):
+        ops.append({"op": "node", "side": "B", "nop": {"op": "iapp", "type": "database-client", "listen": [], "health": "GOOD", "fix": 2, "cfg": True}})
+    ops.append({"op": "dboffer", "side": "B", "offer": rng.choice([None, True, True, False])})
+    if rng.chance(1, 4):
+        ops.append(_install(rng, "A", "web-server", []))      # the browser's own node also serves 80/tcp (shared port)
+    if rng.chance(1, 3):
+        ops.append({"op": "target", "side": "A", "url": rng.choice([None, 0, 1, 5])})
+    if rng.chance(9, 10):   # system applications of a node built outside a game are CLOSED until run
+        ops.append({"op": "node", "side": "A", "nop": {"op": "aapi", "pick": 0, "ev": "run"}})
+    if rng.chance(1, 3):
+        ops.append({"op": "node", "side": "B", "nop": {"op": "aapi", "pick": 0, "ev": "run"}})
+    n = rng.range(10, max_ops)
+    while len(ops) < n:
+        k = rng.below(100)
+        side = rng.choice(["A", "B"])
+        if k < 38:
+            ops.append({"op": "browse", "side": rng.choice(["A", "A", "A", "B"]), "url": rng.choice([0, 1, 1, 2, 3, 4, 5, 6, 7, None])})
+        elif k < 50:
+            nm = rng.choice(["web-server", "web-server", "dns-server", "dns-client"])
+            ops.append({"op": "node", "side": rng.choice(["B", "B", "A"]), "nop": {"op": "sreq", "name": nm, "r": rng.choice(LIFE_REQS)}})
+        elif k < 56:
+            ops.append(rng.choice([{"op": "node", "side": "A", "nop": {"op": "areq", "name": "web-browser", "r": rng.choice(["close", "scan", "fix"])}},
+                                   {"op": "node", "side": "A", "nop": {"op": "aapi", "pick": 0, "ev": "run"}}]))
+        elif k < 62:
+            ops.append({"op": "node", "side": side, "nop": {"op": rng.choice(["poff", "pon", "rshut", "rstart", "pon", "rstart"])}})
+        elif k < 76:
+            uid = rng.choice([0, 1, 2, 7])
+            spec = rng.choice([f"http:{rng.choice(['get', 'get', 'post', 'other'])}:{URLS[uid][3]}:{uid}",
+                               f"resp:{rng.choice(['200', '404', '500', '405'])}", "junk", f"dns:x.test:{ipB}"])
+            ops.append({"op": "inject", "side": side, "via": rng.chance(2, 3), "hdr": "tcp", "port": rng.choice([80, 80, 80, 8080, 53]), "payload": spec})
+        elif k < 82:
+            ops.append({"op": "dboffer", "side": "B", "offer": rng.choice([None, True, False])})
+        elif k < 86:
+            ops.append({"op": "target", "side": "A", "url": rng.choice([None, 0, 1, 2, 5])})
+        elif k < 90:
+            ops.append({"op": "node", "side": rng.choice(["A", "B"]), "nop": {"op": "uninst", "name": rng.choice(["database-client", "dns-client", "web-server", "dns-server"])}})
+        elif k < 94:
+            ops.append(rng.choice([{"op": "node", "side": "B", "nop": {"op": "iapp", "type": "database-client", "listen": [], "health": "GOOD", "fix": 2, "cfg": True}},
+                                   _install(rng, "B", "web-server", []), _install(rng, "B", "dns-server", [])]))
+        elif k < 97:
+            ops.append({"op": "register", "side": "B", "name": rng.choice(NAMES), "ip": rng.choice([ipB, ipB, ipA, ADDRS[0]])})
+        else:
+            ops.append({"op": "node", "side": side, "nop": {"op": "tick"}})
+    return {"ops": ops[:max(n, 1)], "focus": "web"}
+
+
 # --------------------------------------------------------------------------------------------------- run one case
 def run_world_case(case: dict, guards: Dict[str, bool]) -> dict:
     w = WorldImpl(guards)
@@ -551,3 +687,118 @@ def run_conn_case(case: dict) -> dict:
             oracle.append((i, "more-connections-than-max-sessions", f"{len(obj._connections)} > {case['max']}"))
         impl.append(f"ret {1 if r else 0} {show()}")
     return {"impl": impl, "lines": lines, "oracle": oracle}
+
+
+# --------------------------------------------------------------------------------------------------- attack loops of the red applications
+BOT_TYPES = {"dos": "dos-bot", "dm": "data-manipulation-bot", "rw": "ransomware-script"}
+
+
+def gen_bot_case(rng: Rng) -> dict:
+    kind = rng.choice(["dos", "dos", "dm", "dm", "dm", "rw"])
+    return {"kind": kind, "state": rng.choice(["RUNNING", "RUNNING", "RUNNING", "CLOSED", "INSTALLING"]),
+            "node_on": not rng.chance(1, 6), "configured": not rng.chance(1, 6), "repeat": rng.chance(1, 2),
+            "stage": rng.choice([0, 0, 1, 2, 3] if kind == "dos" else [0, 0, 0, 1, 2, 2, 3, 4, 5]), "trials": [rng.chance(2, 3), rng.chance(2, 3)],
+            "sessions": rng.choice([0, 1, 3, 7]), "has_client": not rng.chance(1, 5), "offer": rng.choice([None, True, True, False]),
+            "conn": rng.choice([None, None, True, False]),
+            "entry": rng.choice(["loop", "loop", "loop", "attack", "tick", "run"])}
+
+
+class _CountingConn(FakeDbConnection):
+    def __init__(self, ok, counter):
+        super().__init__(ok)
+        self.counter = counter
+
+    def query(self, sql):
+        self.counter["queries"] += 1
+        return self.ok
+
+
+def run_bot_case(case: dict) -> dict:
+    """one call of a bot's attack loop (or of another entry point) on a real instance put into the given state; the model
+    line carries the state before the call, the answer is the state after it and how often the bot acted"""
+    base.load()
+    from ipaddress import IPv4Address
+    from primaite.simulator.network.hardware.node_operating_state import NodeOperatingState
+    from primaite.simulator.system.applications.application import ApplicationOperatingState
+    import primaite.simulator.system.applications.red_applications.data_manipulation_bot as dm_mod
+    import primaite.simulator.system.applications.red_applications.dos_bot as dos_mod
+    node = base.make_node("computer", {"power": "ON", "up": 0, "down": 0, "kind": "computer", "hostname": "bot_host"})
+    sm = node.software_manager
+    kind = case["kind"]
+    cls = base.registries()[1][BOT_TYPES[kind]]
+    from primaite.simulator.system.applications.database_client import DatabaseClient
+    if kind != "dos" and case["has_client"]:
+        sm.install(DatabaseClient)
+    sm.install(cls)
+    bot = sm.software[BOT_TYPES[kind]]
+    counter = {"queries": 0, "asked": 0, "connects": 0, "trials": 0}
+    script = list(case["trials"])
+
+    def trial(p):
+        counter["trials"] += 1
+        return script.pop(0) if script else False
+    saved = (dos_mod.simulate_trial, dm_mod.simulate_trial)
+    dos_mod.simulate_trial = trial
+    dm_mod.simulate_trial = trial
+    try:
+        dbc = sm.software.get("database-client")
+        if dbc is not None:
+            def offer(*a, **k):
+                counter["asked"] += 1
+                return None if case["offer"] is None else _CountingConn(bool(case["offer"]), counter)
+            object.__setattr__(dbc, "get_new_connection", offer)
+        if kind == "dos":
+            object.__setattr__(bot, "connect", lambda *a, **k: (counter.__setitem__("connects", counter["connects"] + 1), True)[1])
+            bot.max_sessions = case["sessions"]
+            bot.dos_intensity = 1.0
+            bot.repeat = case["repeat"]
+            bot.target_ip_address = IPv4Address("192.168.1.77") if case["configured"] else None
+            bot.attack_stage = dos_mod.DoSAttackStage(case["stage"])
+        else:
+            bot.server_ip_address = IPv4Address("192.168.1.77") if case["configured"] else None
+            bot.payload = "DELETE"
+            if kind == "dm":
+                bot.repeat = case["repeat"]
+                bot.attack_stage = dm_mod.DataManipulationAttackStage(case["stage"])
+            bot._db_connection = None if case["conn"] is None else _CountingConn(bool(case["conn"]), counter)
+        bot.operating_state = ApplicationOperatingState[case["state"]]
+        if case["state"] == "INSTALLING":
+            bot.install_countdown = 2
+        node.operating_state = NodeOperatingState.ON if case["node_on"] else NodeOperatingState.OFF
+        can = bool(bot._can_perform_action())
+        entry = case["entry"]
+        if entry == "loop" or (entry in ("attack",) and kind == "dos"):
+            ret = bot._application_loop()
+            entry = "loop"
+        elif entry == "attack":
+            ret = bot.attack()
+        elif entry == "tick":
+            bot.apply_timestep(1)
+            ret = None
+        else:
+            ret = bot.run()
+        can_after = bool(bot._can_perform_action())
+    finally:
+        dos_mod.simulate_trial, dm_mod.simulate_trial = saved
+    b = lambda x: 1 if x else 0   # noqa
+    ob = lambda x: "-" if x is None else (1 if x else 0)   # noqa
+    oracle = []
+    acted = counter["connects"] + counter["queries"] + counter["asked"]
+    if acted and not (can or can_after):
+        oracle.append(("bot-acted-while-not-running", f"{kind} {entry} in {case['state']}/node {'ON' if case['node_on'] else 'OFF'}: {counter}"))
+    lines, impl = [], []
+    if entry == "loop":
+        if kind == "dos":
+            lines.append(f"bot dos {b(can)} {b(case['configured'])} {b(case['repeat'])} {b(case['trials'][0])} {case['sessions']} {case['stage']}")
+            impl.append(f"stage={bot.attack_stage.value} connects={counter['connects']} trials={counter['trials']} ret={b(ret)}")
+        elif kind == "dm":
+            conn = bot._db_connection
+            lines.append(f"bot dm {b(can)} {b(case['configured'])} {b(case['repeat'])} {b(dbc is not None)} {ob(case['offer'])} "
+                         f"{''.join(str(b(t)) for t in case['trials'])} {ob(case['conn'])} {case['stage']}")
+            impl.append(f"stage={bot.attack_stage.value} conn={'-' if conn is None else b(conn.ok)} asked={counter['asked']} "
+                        f"queries={counter['queries']} trials={counter['trials']} ret={b(ret)}")
+        else:
+            conn = bot._db_connection
+            lines.append(f"bot rw {b(can)} {b(case['configured'])} {b(dbc is not None)} {ob(case['offer'])} {ob(case['conn'])}")
+            impl.append(f"conn={'-' if conn is None else b(conn.ok)} asked={counter['asked']} queries={counter['queries']} ret={b(ret)}")
+    return {"lines": lines, "impl": impl, "oracle": oracle, "entry": entry, "acted": acted, "can": can}
